@@ -79,7 +79,7 @@ def valid_case(draw, max_n=40, max_d=9, kernels=None):
     X, y = draw(values(dtype, n, d))
     return {"kernel": kernel, "dtype": dtype, "X": X, "y": y,
             "xlayout": draw(st.sampled_from(["C", "F", "rowstride", "colstride", "negative", "C"])),
-            "ylayout": draw(st.sampled_from(["contig", "contig", "strided", "reversed"])),
+            "ylayout": draw(st.sampled_from(["contig", "contig", "strided", "reversed", "row_of_X"])),
             "out": draw(st.sampled_from(["none", "fresh", "view_strided", "view_offset"])),
             "threads": draw(st.sampled_from(THREADS)),
             "readonly": draw(st.sampled_from([False, False, True])),
@@ -182,7 +182,14 @@ def _eval_valid(c):
     v = np.array(c["y"], dtype=c["dtype"])
     n, d = V.shape
     X = lay_X(V, c["xlayout"])
-    y = lay_y(v, c["ylayout"])
+    if c["ylayout"] == "row_of_X":
+        # the target is a row of the data itself, handed over as a VIEW of X (what `X[i]` gives in every clustering
+        # loop): X and y share memory
+        k = (len(c["y"]) + int(abs(float(np.asarray(c["y"], dtype=float).ravel()[0])))) % n
+        v = V[k].copy()
+        y = X[k]
+    else:
+        y = lay_y(v, c["ylayout"])
     require(np.array_equal(X, V) and np.array_equal(y, v), "harness: layout changed values")
     if c.get("readonly"):        # read-only inputs (e.g. memory-mapped data) are valid: the kernels only read X and y
         X.flags.writeable = False
